@@ -40,7 +40,9 @@
 EXTENDS Integers, Sequences, FiniteSets, TLC
 
 CONSTANTS MaxPts,      \* points per series
-          QPerData     \* queries generated per dataset
+          QPerData,    \* queries generated per dataset
+          Focus        \* "none": the whole subset; "fill": only GROUP BY time(w), host with fill(previous|<n>|null), no filters
+                       \* (a stratum that is rare in the general mix: windows without points inside multi-series results)
 
 VARIABLES data,        \* sequence of [host, pts: Seq(<<t, v>>)] sorted by host, pts sorted by t (unique t per series)
           q,           \* abstract query record
@@ -50,7 +52,7 @@ VARIABLES data,        \* sequence of [host, pts: Seq(<<t, v>>)] sorted by host,
 vars == <<data, q, exp, n, seed, phase>>
 
 Ticks == 0..11
-Vals == -3..9
+Vals == -2..4          \* few values: ties between equal values (min/max) and equal sums are frequent
 HostSeq == <<"a", "b", "c">>
 Hosts == {"a", "b", "c"}
 Epoch == -1000
@@ -206,7 +208,7 @@ MkQuery(r) ==
       tagop |-> Pick1(r, 9, <<"none", "none", "none", "eq", "ne">>),
       tagv |-> Pick1(r, 10, <<"a", "b", "c", "a", "b", "c", "zz">>),
       fop |-> Pick1(r, 11, <<"none", "none", "none", "gt", "ge", "lt", "le", "eq", "ne">>),
-      fk |-> (r[12] % 9) - 2,
+      fk |-> (r[12] % 7) - 2,
       w |-> wnd,
       off |-> IF wnd = 0 \/ r[13] % 2 = 0 THEN 0 ELSE (r[14] % 11) - 4,
       gtag |-> r[15] % 2 = 0,
@@ -220,6 +222,15 @@ MkQuery(r) ==
 
 Normalize(d, qq) == IF qq.sel = "raw" /\ (qq.limit > 0 \/ qq.offset > 0) /\ HasTie(d, qq)
                     THEN [qq EXCEPT !.limit = 0, !.offset = 0] ELSE qq
+
+FocusFill(r, qq) ==
+  LET wnd == Pick1(r, 4, <<2, 3, 4, 5, 2, 3>>)
+      lo == r[6] % 4
+  IN [qq EXCEPT !.sel = Sels[(r[2] % 7) + 2], !.w = wnd, !.off = IF r[13] % 3 = 0 THEN (r[14] % 5) - 2 ELSE 0,
+                !.tlo = lo, !.thi = 12 - (r[8] % 3), !.gtag = TRUE,
+                !.fill = Pick1(r, 16, <<"previous", "previous", "num", "null">>),
+                !.tagop = "none", !.fop = IF r[11] % 4 = 0 THEN "gt" ELSE "none", !.fk = (r[12] % 5) - 2,
+                !.slimit = 0, !.soffset = 0]
 
 \* pseudo-random stream derived from the seed (TLC's own RandomElement is re-seeded identically at every step, so
 \* the randomness comes from the simulator's choice of `seed` and this generator spreads it over the fields)
@@ -236,7 +247,7 @@ MkData(r) ==
   IN [k \in 1..Len(hs) |->
         LET i == hs[k]
             ts == SortSet(Cut(TicksOf(i)))
-        IN [host |-> HostSeq[i], pts |-> [j \in 1..Len(ts) |-> <<ts[j], (r[40 + i * 12 + ts[j] + 1 - 12] % 13) - 3>>]]]
+        IN [host |-> HostSeq[i], pts |-> [j \in 1..Len(ts) |-> <<ts[j], (r[40 + i * 12 + ts[j] + 1 - 12] % 7) - 2>>]]]
 
 Q0 == MkQuery([k \in 1..25 |-> 1])
 
@@ -251,7 +262,8 @@ PickSeed == /\ phase \in {"p1", "p2"}
 Gen == /\ phase = "gen"
        /\ LET r == Stream(seed, 25)
               d == IF n % QPerData = 0 THEN MkData(Stream(seed + 7, 80)) ELSE data
-              qq == Normalize(d, MkQuery(r))
+              q0 == MkQuery(r)
+              qq == Normalize(d, IF Focus = "fill" THEN FocusFill(r, q0) ELSE q0)
           IN /\ data' = d
              /\ q' = qq
              /\ exp' = Eval(d, qq)
